@@ -11,7 +11,7 @@ import (
 const (
 	DefPrologue = "\npackage main\n\nimport \"fmt\"\n\nvar _ = fmt.Sprint\n"
 	DefUnion    = "\n\tval int\n"
-	DefEpilogue = "\nfunc GetToken(input string, valTy *ValType, pos *int) int {\n\treturn -1\n}\n"
+	DefEpilogue = "\nfunc GetToken(input string, valTy *ValType, pos *int) int {\n\trem := 7 % 3 // 100%\n\treturn rem - 2\n}\n"
 )
 
 func base() *Spec {
